@@ -20,7 +20,11 @@ SPEC = {
     "build_comp": "dns",
     "props": ["props/C44.v"],
     "corr": ["corr/Dns_corr.v"],
-    "comps": [{"comp": "dns", "n_quick": 120, "n_thorough": 3000}],
+    # dnsnet: the responder inside a network of real nodes (real handshakes in both directions: right host, wrong
+    # responder, multi-address certificates, untrusted CA, blocklisted, own-address claim); its oracle (code 2) works on
+    # the implementation's observations alone: answered addresses must be certificate addresses of established tunnels
+    "comps": [{"comp": "dns", "n_quick": 120, "n_thorough": 3000},
+              {"comp": "dnsnet", "n_quick": 60, "n_thorough": 1500}],
     "trusted": ["model/Dns.v (dns_add, seed_self, dstep, query, query_cert, client_ok, pq_loop, handle_request) is a hand-written mirror of dns_server.go / hostmap.go (tied by correspondence)"],
     "assumptions": ["dnsServer.Add is reached only through unlockedAddHostInfo, i.e. with the certificate of a completed handshake (C05/C09)",
                     "certificate and question names are ASCII",
